@@ -1,1 +1,3 @@
 import Reduino.Driver.Host
+import Reduino.Driver.Core
+import Reduino.Driver.Tool
